@@ -718,12 +718,9 @@ def enumerated_jobs(r, profiles, thorough):
            [(1, "lite", True), (2, "lite", False)]
     i = 0
     for k, universe, both_roles in plan:
-        for fa in fp_lists(k, universe):
-            for role_a in ("client", "server"):
+        for j, fa in enumerate(fp_lists(k, universe)):
+            for role_a in (("client", "server") if both_roles else (("client", "server")[j % 2],)):
                 i += 1
-                if not both_roles and (i % 2):
-                    i += 1          # the next list starts with the other role
-                    continue
                 fb = b_variants[i % 3] if i % 4 == 0 else GOOD
                 pa, pb = (full, full[::-1]) if i % 5 else (r.choice(plists), r.choice(plists))
                 add("enum-fp", fa, fb, pa, pb, role_a)
